@@ -200,12 +200,13 @@ class DecodingTable {
 
 public:
   /** Generic constructor. */
-  DecodingTable(){};
+  DecodingTable() { initEntries(); };
 
   /** Simple constructor allocating memory for the subtrees. */
   DecodingTable(uint sigma) {
     this->nodes = 0;
     this->subtrees = new DecodingTree *[sigma];
+    initEntries();
   };
 
   /** @returns the chunk length used in the table */
@@ -263,6 +264,14 @@ protected:
   BitString *endings;      //! Bitstring setting the streams with '\0'
 
   Entry ventry[256];
+
+  /** Precomputes the (length, bits) pair encoded by every info byte. */
+  void initEntries() {
+    for (uint i = 0; i < 256; i++) {
+      ventry[i].length = ((i & 240) >> 4);
+      ventry[i].bits = ((i & 15) + 1);
+    }
+  }
 
   /** Encodes in a byte the information used for decoding a
       given susbtring.
